@@ -30,6 +30,9 @@ def Expr.simple : Expr → Bool
   | .isNull _ => true
   | .ptrEq _ _ _ _ => false
   | .ptrLt _ _ _ _ => false
+  | .pload _ _ => false
+  | .pload32 _ _ => false
+  | .avar _ _ _ => false
 
 /-- no calls, no pointer locals, no pointer comparisons other than with null -/
 def Stmt.simple : Stmt → Bool
@@ -48,6 +51,10 @@ def Stmt.simple : Stmt → Bool
   | .call _ _ _ _ => false
   | .ret => true
   | .cont => true
+  | .pstore _ _ _ => false
+  | .pstore32 _ _ _ => false
+  | .aset _ _ _ _ => false
+  | .extcall _ _ _ => false
 
 /-- pointer parameters a statement may write through -/
 def wrPtrs : Stmt → List Nat
@@ -188,6 +195,9 @@ theorem eval_sim (hB : B < m0.size) (hW : Win B nn Γ Γ' wr) (σ σ' : State)
     rw [isNull_sim hW p]; exact h
   | ptrEq _ _ _ _ => intro v hs _; simp [Expr.simple] at hs
   | ptrLt _ _ _ _ => intro v hs _; simp [Expr.simple] at hs
+  | pload _ _ => intro v hs _; simp [Expr.simple] at hs
+  | pload32 _ _ => intro v hs _; simp [Expr.simple] at hs
+  | avar _ _ _ => intro v hs _; simp [Expr.simple] at hs
 
 theorem evalB_sim (hB : B < m0.size) (hW : Win B nn Γ Γ' wr) (σ σ' : State)
     (hS : SR B nn Γ Γ' wr m0 X0 σ σ') (c : Expr) (b : Bool) (hs : c.simple = true)
@@ -528,6 +538,10 @@ theorem exec_sim (hB : B < m0.size) (hW : Win B nn Γ Γ' wr) :
   | .passign _ _ _, hs, _ => by simp [Stmt.simple] at hs
   | .vstore _ _ _ _, hs, _ => by simp [Stmt.simple] at hs
   | .call _ _ _ _, hs, _ => by simp [Stmt.simple] at hs
+  | .pstore _ _ _, hs, _ => by simp [Stmt.simple] at hs
+  | .pstore32 _ _ _, hs, _ => by simp [Stmt.simple] at hs
+  | .aset _ _ _ _, hs, _ => by simp [Stmt.simple] at hs
+  | .extcall _ _ _, hs, _ => by simp [Stmt.simple] at hs
   | .assign x e, hs, _ => by
     intro f σ' r' h σ hS
     rw [exec_assign] at h ⊢
